@@ -245,8 +245,59 @@ def eval_case(case):
     else:
         base = dict(case, pid="C16")
         rng0 = random.Random("C16:%s:%s:%s" % (case["seed"], case["i"], case["strategy"]))
-        full = scen.gen_scenario(rng0, strategy=case["strategy"], feasible=True, max_steps=40)
+        feats = None
+        if case["variant"] == "shift" and case["strategy"] == "schedule" and case["i"] % 2 == 0:
+            feats = {"collective": True}
+        full = scen.gen_scenario(rng0, strategy=case["strategy"], feasible=True, max_steps=40, features=feats)
         full["variant"] = case["variant"]
+        if feats:
+            # directed: a no-drive day that is the last day of a month inside the SHIFTED run (calendar arithmetic on
+            # day-of-month in the core-standing-time scan)
+            sc0 = full["scenario"]["scenario"]
+            t0 = datetime.datetime.fromisoformat(sc0["start_time"])
+            t1 = t0 + datetime.timedelta(minutes=sc0["interval"] * sc0["n_intervals"])
+            for kk in range(1, 13):
+                day = (t0 + datetime.timedelta(days=7 * kk)).date()
+                last = (t1 + datetime.timedelta(days=7 * kk)).date()
+                hit = None
+                while day <= last:
+                    if (day + datetime.timedelta(days=1)).day == 1:
+                        hit = day
+                        break
+                    day += datetime.timedelta(days=1)
+                if hit is not None:
+                    cst = sc0.setdefault("core_standing_time", {"times": []})
+                    cst["no_drive_days"] = sorted(set(cst.get("no_drive_days", []) + [hit.weekday()]))
+                    full["shift_k"] = kk
+                    break
+        if case["variant"] == "same" and case["strategy"] == "distributed" and case["i"] % 2 == 0:
+            # directed: more identical vehicles than charging points, arriving together with equal SoC (ranking ties)
+            sc = full["scenario"]
+            comp = sc["components"]
+            g = sorted(comp["grid_connectors"])[0]
+            comp["grid_connectors"][g]["number_cs"] = rng0.choice([1, 2])
+            vids = [v for v in comp["vehicles"]]
+            stations = [c for c, x in comp["charging_stations"].items() if x["parent"] == g]
+            if len(vids) >= 3 and stations:
+                tn = comp["vehicles"][vids[0]]["vehicle_type"]
+                t_arr = datetime.datetime.fromisoformat(sc["scenario"]["start_time"]) + datetime.timedelta(
+                    minutes=sc["scenario"]["interval"] * 2)
+                t_dep = t_arr + datetime.timedelta(minutes=sc["scenario"]["interval"] * 12)
+                suffix = stations[0].rsplit("_", 1)[1]
+                sc["events"]["vehicle_events"] = []
+                for vid in vids:
+                    csid = "CS_%s_%s" % (vid, suffix)
+                    comp["charging_stations"][csid] = dict(comp["charging_stations"][stations[0]])
+                    comp["vehicles"][vid] = {"vehicle_type": tn, "soc": 0.8, "desired_soc": 0.8}
+                    sc["events"]["vehicle_events"].append({
+                        "signal_time": scen.iso(t_arr - datetime.timedelta(hours=1)), "start_time": scen.iso(t_arr),
+                        "vehicle_id": vid, "event_type": "arrival",
+                        "update": {"connected_charging_station": csid, "estimated_time_of_departure": scen.iso(t_dep),
+                                   "desired_soc": 0.9, "soc_delta": -0.3}})
+                    sc["events"]["vehicle_events"].append({
+                        "signal_time": scen.iso(t_dep), "start_time": scen.iso(t_dep), "vehicle_id": vid,
+                        "event_type": "departure",
+                        "update": {"estimated_time_of_arrival": scen.iso(t_dep + datetime.timedelta(hours=8))}})
         if case["variant"] == "shift" and "time_windows" in full["meta"]:
             # the property quantifies over shifts within one window season
             full["meta"]["time_windows"]["default_grid_operator"]["s1"]["end"] = "2020-12-31"
@@ -348,6 +399,8 @@ def eval_case(case):
                 day += datetime.timedelta(days=1)
         if ends and rng.random() < 0.6:
             k = rng.choice(ends)
+        if full.get("shift_k"):
+            k = full["shift_k"]
         shifted = copy.deepcopy(full)
         shifted["scenario"] = shift_times(full["scenario"], datetime.timedelta(days=7 * k))
         r2 = scen.run_real(shifted, timeout_s=60)
